@@ -4,6 +4,7 @@ import (
 	"context"
 	"encoding/base64"
 	"encoding/binary"
+	"errors"
 	"fmt"
 	"io"
 	"net/http"
@@ -14,6 +15,7 @@ import (
 
 	"github.com/IrineSistiana/mosproxy/internal/dnsmsg"
 	"github.com/IrineSistiana/mosproxy/internal/pool"
+	"github.com/quic-go/quic-go/http3"
 	"github.com/rs/zerolog"
 )
 
@@ -138,12 +140,21 @@ func (u *DoHTransport) exchange(ctx context.Context, rawQuery string) (*dnsmsg.M
 		var reused atomic.Bool
 		trace := &httptrace.ClientTrace{GotConn: func(info httptrace.GotConnInfo) { reused.Store(info.Reused) }}
 		r, connErr, err := u.exchangeOnce(httptrace.WithClientTrace(ctx, trace), rawQuery)
-		if connErr && (reused.Load() || isQuicConnErr(err)) && retry < 3 && ctx.Err() == nil {
+		if connErr && (reused.Load() || isQuicConnErr(err) || isHttp3Err(err)) && retry < 3 && ctx.Err() == nil {
 			retry++
 			continue
 		}
 		return r, err
 	}
+}
+
+// isHttp3Err reports whether err is a http3 error. The http3 transport does not
+// tell whether the connection was reused and it replaces the error of the quic
+// connection by its own error type for requests that are in flight when the
+// server closes the connection.
+func isHttp3Err(err error) bool {
+	var h3Err *http3.Error
+	return errors.As(err, &h3Err)
 }
 
 // connErr reports whether err is an error of the connection. (Not of the
